@@ -24,6 +24,9 @@ def timed_source(rng):
             if r < 0.5:
                 m = rng.randint(1, 40); b = rng.randint(1, num); t = rng.randint(0, max(0, beat - 1))
                 parts.append("TIME(%d:%d:%d) %s" % (m, b, t, rng.choice(["c", "d8", "e2", "n60,4", "y7,100", "@3"])))
+            elif r < 0.58:
+                # meta events whose payload holds bytes >= 0x80 (not valid UTF-8 on their own) or multi-byte text, followed by further events
+                parts.append(rng.choice(["Port(%d)" % rng.choice([200, 128, 255, 127, 0, 5]), "TrackName={\"%s\"}" % rng.choice(["あいう", "é", "Ж€😀", "abc"]), "Lyric={\"ら\"}", "Marker={\"ü\"}"]) + " " + rng.choice(["c", "d8 e", "TIME(2:1:0) c"]))
             elif r < 0.75:
                 parts.append("l%%%d q100 %s" % (rng.choice([127, 126, 128, 255, 16383, 16384, 2097151, 2097152, rng.randint(1, 300)]), rng.choice(["c d", "e r f", "g"])))
             else:
